@@ -22,7 +22,8 @@ AllCases(u) ==
   (IF "farcall" \in Families THEN FarCallCases(u) ELSE {}) \cup
   (IF "calls" \in Families THEN CallsCases(u) ELSE {}) \cup
   (IF "helpers" \in Families THEN HelperCases(u) ELSE {}) \cup
-  (IF "ctx" \in Families THEN CtxCases(u) ELSE {})
+  (IF "ctx" \in Families THEN CtxCases(u) ELSE {}) \cup
+  (IF "cfg" \in Families THEN CfgCases(u) ELSE {})
 
 Init == \E c \in AllCases(0) : InitFor(c)
 Next == ExecNext
